@@ -160,11 +160,15 @@ func (r *raceState) report(desc string, a, b *access) {
 	r.Reports = append(r.Reports, rep)
 }
 
-func (r *raceState) access(g *G, addr uintptr, write bool, site, desc string) {
+func (r *raceState) access(g *G, addr uintptr, write bool, site, desc string, pin any) {
 	sh := r.mem[addr]
 	if sh == nil {
 		sh = &shadow{reads: map[int]*access{}, desc: desc}
 		r.mem[addr] = sh
+		if pin != nil {
+			// keep the object alive for the run so that its address is never reused
+			r.pins = append(r.pins, pin)
+		}
 	}
 	clk := g.vc.get(g.ID)
 	cur := &access{gid: g.ID, clk: clk, site: site, write: write}
@@ -201,8 +205,7 @@ func R[T any](p *T, site string) *T {
 		if len(s.cur.vc) == 0 {
 			s.race.tick(s.cur)
 		}
-		s.race.pin(p)
-		s.race.access(s.cur, uintptr(unsafe.Pointer(p)), false, site, "var")
+		s.race.access(s.cur, uintptr(unsafe.Pointer(p)), false, site, "var", p)
 	}
 	return p
 }
@@ -213,13 +216,11 @@ func W[T any](p *T, site string) *T {
 		if len(s.cur.vc) == 0 {
 			s.race.tick(s.cur)
 		}
-		s.race.pin(p)
-		s.race.access(s.cur, uintptr(unsafe.Pointer(p)), true, site, "var")
+		s.race.access(s.cur, uintptr(unsafe.Pointer(p)), true, site, "var", p)
 	}
 	return p
 }
 
-func (r *raceState) pin(p any) { r.pins = append(r.pins, p) }
 
 func mapAddr(m any) uintptr {
 	v := reflect.ValueOf(m)
@@ -238,8 +239,7 @@ func MapR[M any](m M, site string) M {
 			if len(s.cur.vc) == 0 {
 				s.race.tick(s.cur)
 			}
-			s.race.pin(m)
-			s.race.access(s.cur, a, false, site, "map")
+			s.race.access(s.cur, a, false, site, "map", m)
 		}
 	}
 	return m
@@ -252,8 +252,7 @@ func MapW[M any](m M, site string) M {
 			if len(s.cur.vc) == 0 {
 				s.race.tick(s.cur)
 			}
-			s.race.pin(m)
-			s.race.access(s.cur, a, true, site, "map")
+			s.race.access(s.cur, a, true, site, "map", m)
 		}
 	}
 	return m
@@ -294,7 +293,7 @@ func Reach(v any, write bool, site string) {
 					if len(s.cur.vc) == 0 {
 						s.race.tick(s.cur)
 					}
-					s.race.access(s.cur, a, write, site, "field "+rv.Type().Name()+"."+rv.Type().Field(i).Name)
+					s.race.access(s.cur, a, write, site, "field "+rv.Type().Name()+"."+rv.Type().Field(i).Name, nil)
 				}
 				walk(f, depth+1)
 			}
@@ -305,8 +304,7 @@ func Reach(v any, write bool, site string) {
 			if len(s.cur.vc) == 0 {
 				s.race.tick(s.cur)
 			}
-			s.race.pin(rv.Interface())
-			s.race.access(s.cur, rv.Pointer(), write, site, "map")
+			s.race.access(s.cur, rv.Pointer(), write, site, "map", rv.Interface())
 			if seen[rv.Pointer()] {
 				return
 			}
@@ -323,6 +321,9 @@ func Reach(v any, write bool, site string) {
 	}
 	walk(reflect.ValueOf(v), 0)
 }
+
+func ReachR[T any](v T, site string) T { Reach(v, false, site); return v }
+func ReachW[T any](v T, site string) T { Reach(v, true, site); return v }
 
 func (r RaceReport) String() string {
 	k := func(w bool) string {
